@@ -193,7 +193,7 @@ func systemGenMulti(c *Ctx, w *trace.Writer, tmp string) {
 		// roms[2] and roms[10] are two different programs on the same kind of cartridge (MBC1, no RAM declared)
 		sets := [][]int{{2, 10}, {0, 1, 4}, {2, 4}, {3, 10, 6}, {0, 8}, {5, 2, 10}}
 		frames := 3
-		groups := 2
+		groups := 3
 		if c.Thorough() {
 			frames = 10
 			groups = 6
